@@ -46,7 +46,7 @@ def canon(x):
 def norm_state(s):
     return canon({"cls": sorted(map(tuple, s["cls"])), "inst": sorted(map(tuple, s["inst"])),
                   "asg": sorted(map(tuple, s["asg"])), "tp": dict((k, sorted(v)) for k, v in s["tp"].items()),
-                  "tabs": sorted(s["tabs"]), "mut": sorted(canon(m) for m in s["mut"])})
+                  "tabs": sorted(s["tabs"]), "mut": sorted(canon(m) for m in s["mut"]), "det": sorted(s.get("det", []))})
 
 
 def explore(groups, priv, max_asg=1, max_mut=1, timeout=900):
